@@ -31,6 +31,12 @@ TABLE = {
  "C07": (True, "runtime differential monitoring: byte comparison with an independently written RFC 8554 signer + independent verifier + reference tool",
          "every signature released on the C01 grid is compared byte for byte with the model signer run on the same key bytes and message (first differing field named), checked against the RFC length formula, verified by the model and (SHA-256/32) the hash-sigs tool; strict Appendix-B parameters are applied separately so that the recorded ls deviation (known finding) stays visible without masking anything else",
          TRUST + "; the upper-level randomizer rule and the 55-byte PRNG block for n<32 are pinned to the tree under test", "DESIGN.md 5 (C07)"),
+ "C10": (True, "metamorphic runtime monitoring (with aux vs without aux) + layout comparison with the model and the reference tool",
+         "for every key of the workload the aux-less keygen/sign results are the oracle; keygen and sign are repeated with thousands of hostile buffers (every length, every truncation, every single-bit corruption of small valid buffers, level-word replacements, garbage, other-seed buffers incl. MAC-cut and zero-padded, buffers set up by sign) and any difference, error, panic or write beyond the used length is a violation; fresh buffers must hold the model's hash-sigs layout, byte-identical to the tool's .aux file where the two level selections coincide, and the tool must be able to sign with the library's aux file",
+         TRUST + "; buffers MAC-valid for the same seed but another parameter list are legitimate cache contents by the property's own rule and are not generated", "DESIGN.md 5 (C10)"),
+ "C11": (True, "fault enumeration under a panic monitor and callback recorder, Ok results checked against the model",
+         "the malformed-input grid (parameter-list lengths 0..10, key lengths 0..64, all 256 values of every parameter byte of 1-/2-/8-level keys, counters at and beyond the lifetime, wiped key, aux lengths 0..8 and all level-word corruptions) is finite and enumerated completely under all 6 hashes; no panic, no callback on error paths, every Ok must be the model's result for the state the bytes encode",
+         TRUST + "; well-formed keys whose trees are unaffordable (H10+) are skipped and counted", "DESIGN.md 5 (C11)"),
  "C12": (True, "exhaustive execution of the real digit-encoding code through a hook, against the Appendix-B formulas, plus domination search",
          "the real append_checksum_to + coef are executed for every digest byte position x value and for every attainable checksum value of all 12 (n,w) (finite sub-spaces, enumerated), for millions of random digests and adversarial neighbour pairs (domination search); chain positions recovered from released signatures tie the hook to what sign emits; the three tabulated ls deviations are reported as known findings with concrete domination witnesses",
          TRUST, "DESIGN.md 5 (C12)"),
